@@ -1,0 +1,56 @@
+//go:build verif
+
+// Contracts for the verification machinery in /verif (govc). Comment-only.
+
+package bitio
+
+// ---- C05 / C17: representation invariant of the VP8L bit reader ----
+//
+// pos never leaves the buffer, len_ is the buffer length, and the bit
+// position stays within one 64-bit window plus one maximal read, for every
+// byte string and every sequence of calls.
+//@ pure func lrInv(br *LosslessReader) bool = br != nil && br.len_ == len(br.buf) && 0 <= br.pos && br.pos <= br.len_ && 0 <= br.bitPos && br.bitPos <= 64 + 24 + 32
+//
+//@ func NewLosslessReader
+//@   property C05 C17
+//@   modifies nothing
+//@   ensures lrInv(result) && fresh(result) && !result.eos && result.bitPos == 0
+//
+//@ func (br *LosslessReader) IsEndOfStream
+//@   property C05 C17
+//@   requires br != nil
+//@   modifies nothing
+//@   ensures result <==> (br.eos || (br.pos == br.len_ && br.bitPos > 64))
+//
+//@ func (br *LosslessReader) PrefetchBits
+//@   property C05
+//@   requires br != nil
+//@   modifies nothing
+//
+//@ func (br *LosslessReader) shiftBytes
+//@   property C05 C17
+//@   requires lrInv(br)
+//@   modifies br
+//@   loop 0: invariant lrInv(br) && br.buf == old(br.buf) && br.bitPos <= old(br.bitPos) && br.eos == old(br.eos)
+//@   loop 0: decreases br.bitPos
+//@   ensures lrInv(br) && br.bitPos <= old(br.bitPos) && (old(br.eos) ==> br.eos)
+//@   ensures br.buf == old(br.buf)
+//
+//@ func (br *LosslessReader) ReadBits
+//@   property C05 C17
+//@   requires lrInv(br) && br.bitPos <= 64 + 32
+//@   modifies br
+//@   ensures lrInv(br) && (old(br.eos) ==> br.eos) && br.buf == old(br.buf)
+//@   ensures nBits >= 0 && nBits <= 24 ==> result < 1 << 24
+//
+//@ func (br *LosslessReader) doFillBitWindow
+//@   property C05
+//@   requires lrInv(br) && br.bitPos >= 32
+//@   modifies br
+//@   ensures lrInv(br) && br.buf == old(br.buf)
+//
+//@ func (br *LosslessReader) FillBitWindow
+//@   property C05
+//@   requires lrInv(br)
+//@   modifies br
+//@   ensures lrInv(br) && br.buf == old(br.buf)
